@@ -28,7 +28,15 @@ Semantic conventions of the emitted text (all elementary):
     the output list `_out`, which is part of the state;
   * truthiness of a list = it is non-empty; `x is None` is a boolean parameter `<x>_is_none`
     (an Optional[int] parameter m is the pair m_is_none / m : nat); `k in s` for a set-kind
-    variable is `memb k s`, `s.add(k)` conses; a dict is a `pydict` (insertion ordered)."""
+    variable is `memb k s`, `s.add(k)` conses; a dict is a `pydict` (insertion ordered);
+  * `k in d` for a dict is `d_mem d k`; a subscript READ `d[k]` is the total lookup `d_at d k`
+    (dict of elements, default 0) / `group_at d k` (dict of lists, default []): the KeyError
+    path of a missing key is NOT represented (the correspondence run would see the exception);
+    `d[k] = e` is `d_set d k e`, `d[k].append(e)` is `d_set d k (group_at d k ++ [e])`;
+  * a boolean parameter listed in cfg["specialize"] is a compile-time constant: the function is
+    translated once per value and `if <param>` picks its branch statically (needed where the
+    two branches build results of different types: redundant(groups=...));
+  * `[e for k in xs]` over a list variable is `map (fun k => e) xs`; `a if c else b` is `if`."""
 import ast
 import os
 
@@ -80,6 +88,16 @@ elif isinstance(key, str):
 else:
     raise TypeError('"key" expected a string or callable, not %r' % key)
 ''',
+    "redundant": '''
+if key is None:
+    pass
+elif callable(key):
+    key_func = key
+elif isinstance(key, (str, bytes)):
+    def key_func(x): return getattr(x, key, x)
+else:
+    raise TypeError('"key" expected a string or callable, not %r' % key)
+''',
     "bucketize": '''
 if not is_iterable(src):
     raise TypeError('expected an iterable')
@@ -124,6 +142,15 @@ CFG = {
         "gparams": "(key_func : K -> K)", "gargs": "key_func", "carried_free": [],
         "out": "list K", "types": {"seen": "list K"},
     },
+    "redundant": {
+        "params": ["src", "key", "groups"], "defaults": ["Constant(value=None)", "Constant(value=False)"],
+        "kinds": {"key_func": "fun", "key": "truthyflag", "groups": "static", "seen": "dict_elem",
+                  "redundant_order": "list", "redundant_groups": "dict_list", "i": "elem", "k": "elem", "ret": "result"},
+        "gparams": "(key_truthy : bool) (key_func : K -> K)", "gargs": "key_truthy key_func", "carried_free": [],
+        "out": None, "specialize": ("groups", [False, True]),
+        "result_type": {False: "list K", True: "list (list K)"},
+        "types": {"seen": "pydict K", "redundant_order": "list K", "redundant_groups": "pydict (list K)"},
+    },
     "bucketize": {
         "params": ["src", "key", "value_transform", "key_filter"],
         "defaults": ["Name(id='bool', ctx=Load())", "Constant(value=None)", "Constant(value=None)"],
@@ -137,7 +164,8 @@ CFG = {
 
 
 class _Tr:
-    def __init__(self, fname):
+    def __init__(self, fname, static=None):
+        self.static = static or {}
         self.cfg = CFG[fname]
         self.kinds = self.cfg["kinds"]
         self.generator = self.cfg["out"] is not None
@@ -153,15 +181,37 @@ class _Tr:
     def expr(self, e):
         if isinstance(e, ast.Name):
             k = self.kind(e.id, e)
-            if k in ("noneflag", "optpred"):
-                _fail(e, "%s may only be tested against None / called" % e.id)
+            if k in ("noneflag", "optpred", "truthyflag", "static"):
+                _fail(e, "%s may only be tested" % e.id)
             if e.id not in self.scope:
                 _fail(e, "read of unbound %s" % e.id)
             return e.id
         if isinstance(e, ast.Constant) and isinstance(e.value, int) and not isinstance(e.value, bool) and e.value >= 0:
             return "%d" % e.value
-        if isinstance(e, ast.List) and not e.elts:
-            return "[]"
+        if isinstance(e, ast.List):
+            return "[" + "; ".join(self.expr(x) for x in e.elts) + "]"
+        if isinstance(e, ast.IfExp):
+            return "(if %s then %s else %s)" % (self.cond(e.test), self.expr(e.body), self.expr(e.orelse))
+        if isinstance(e, ast.Subscript) and isinstance(e.value, ast.Name):
+            kd = self.kind(e.value.id, e)
+            if kd == "dict_elem":
+                return "(d_at %s %s)" % (self.expr(e.value), self.expr(e.slice))
+            if kd == "dict_list":
+                return "(group_at %s %s)" % (self.expr(e.value), self.expr(e.slice))
+        if isinstance(e, ast.Subscript) and isinstance(e.value, ast.Subscript) and isinstance(e.value.value, ast.Name) \
+                and self.kind(e.value.value.id, e) == "dict_list" and isinstance(e.slice, ast.Constant) \
+                and isinstance(e.slice.value, int) and not isinstance(e.slice.value, bool) and e.slice.value >= 0:
+            return "(nth %d %s 0)" % (e.slice.value, self.expr(e.value))
+        if isinstance(e, ast.ListComp) and len(e.generators) == 1:
+            g = e.generators[0]
+            if isinstance(g.target, ast.Name) and isinstance(g.iter, ast.Name) and not g.ifs and not g.is_async \
+                    and self.kind(g.iter.id, e) == "list" and self.kind(g.target.id, e) == "elem":
+                xs = self.expr(g.iter)
+                saved = set(self.scope)
+                self.scope.add(g.target.id)
+                body = self.expr(e.elt)
+                self.scope = saved
+                return "(map (fun %s : K => %s) %s)" % (g.target.id, body, xs)
         if isinstance(e, ast.Dict) and not e.keys:
             return "[]"
         if isinstance(e, ast.Call) and isinstance(e.func, ast.Name) and not e.keywords:
@@ -194,11 +244,18 @@ class _Tr:
             if isinstance(op, (ast.In, ast.NotIn)) and isinstance(r, ast.Name) and self.kind(r.id, t) == "set":
                 m = "(memb %s %s)" % (self.expr(l), self.expr(r))
                 return m if isinstance(op, ast.In) else "(negb %s)" % m
+            if isinstance(op, (ast.In, ast.NotIn)) and isinstance(r, ast.Name) and self.kind(r.id, t) in ("dict_elem", "dict_list"):
+                m = "(d_mem %s %s)" % (self.expr(r), self.expr(l))
+                return m if isinstance(op, ast.In) else "(negb %s)" % m
             _fail(t, "unsupported comparison")
         if isinstance(t, ast.Name):
             k = self.kind(t.id, t)
             if k == "list":
                 return "(negb (is_nil %s))" % self.expr(t)
+            if k == "truthyflag":
+                return "%s_truthy" % t.id
+            if k == "static":
+                return "true" if self.static[t.id] else "false"
             _fail(t, "truthiness of kind %s" % k)
         if isinstance(t, ast.Call) and isinstance(t.func, ast.Name) and len(t.args) == 1 and not t.keywords \
                 and self.kind(t.func.id, t) in ("pred", "optpred"):
@@ -206,6 +263,14 @@ class _Tr:
                 _fail(t, "call of unbound %s" % t.func.id)
             return "(%s %s)" % (t.func.id, self.expr(t.args[0]))
         _fail(t, "unsupported condition")
+
+    def _static_test(self, t):
+        if isinstance(t, ast.Name) and self.kinds.get(t.id) == "static":
+            return bool(self.static[t.id])
+        if isinstance(t, ast.UnaryOp) and isinstance(t.op, ast.Not) and isinstance(t.operand, ast.Name) \
+                and self.kinds.get(t.operand.id) == "static":
+            return not self.static[t.operand.id]
+        return None
 
     def _natlike(self, e):
         if isinstance(e, ast.Name):
@@ -236,6 +301,15 @@ class _Tr:
                 self.kind(x, s)
                 self.bind(x, s)
                 return ind + "let %s := %s in\n" % (x, e) + self.block(rest, ind, final)
+            if isinstance(s, ast.Pass):
+                return self.block(rest, ind, final)
+            if isinstance(s, ast.Assign) and len(s.targets) == 1 and isinstance(s.targets[0], ast.Subscript) \
+                    and isinstance(s.targets[0].value, ast.Name) \
+                    and self.kind(s.targets[0].value.id, s) in ("dict_elem", "dict_list"):
+                d = s.targets[0].value.id
+                e = "(d_set %s %s %s)" % (self.expr(s.targets[0].value), self.expr(s.targets[0].slice), self.expr(s.value))
+                self.bind(d, s)
+                return ind + "let %s := %s in\n" % (d, e) + self.block(rest, ind, final)
             if isinstance(s, ast.AugAssign) and isinstance(s.target, ast.Name) and isinstance(s.op, ast.Add) \
                     and self.kind(s.target.id, s) == "nat":
                 x = s.target.id
@@ -256,6 +330,13 @@ class _Tr:
                     e = "(%s :: %s)" % (self.expr(c.args[0]), self.expr(tgt))
                     self.bind(tgt.id, s)
                     return ind + "let %s := %s in\n" % (tgt.id, e) + self.block(rest, ind, final)
+                # d[k].append(v)
+                if c.func.attr == "append" and isinstance(tgt, ast.Subscript) and isinstance(tgt.value, ast.Name) \
+                        and self.kind(tgt.value.id, s) == "dict_list":
+                    d = tgt.value.id
+                    e = "(d_set %s %s (%s ++ [%s]))" % (self.expr(tgt.value), self.expr(tgt.slice), self.expr(tgt), self.expr(c.args[0]))
+                    self.bind(d, s)
+                    return ind + "let %s := %s in\n" % (d, e) + self.block(rest, ind, final)
                 # d.setdefault(k, []).append(v)
                 if c.func.attr == "append" and isinstance(tgt, ast.Call) and isinstance(tgt.func, ast.Attribute) \
                         and tgt.func.attr == "setdefault" and isinstance(tgt.func.value, ast.Name) \
@@ -288,6 +369,9 @@ class _Tr:
                 self.bind(s.name, s)
                 v = "true" if s.body[0].value.value else "false"
                 return ind + "let %s := (fun _ : K => %s) in\n" % (s.name, v) + self.block(rest, ind, final)
+            if isinstance(s, ast.If) and self._static_test(s.test) is not None:
+                branch = s.body if self._static_test(s.test) else s.orelse
+                return self.block(list(branch) + rest, ind, final)
             if isinstance(s, ast.If):
                 c = self.cond(s.test)
                 t = ind + "if %s\n" % c
@@ -336,7 +420,7 @@ class _Tr:
         if self.generator:
             state.append("_out")
         self.state = state
-        self.locals_ok = {n for n, kd in self.kinds.items() if kd == "elem"}
+        self.locals_ok = {n for n, kd in self.kinds.items() if kd in ("elem", "result")}
         types = dict(cfg["types"], _out=cfg["out"])
         free = {"maxsplit"} if "maxsplit" in self.kinds else set()
         free |= {n for n, kd in self.kinds.items() if kd in ("fun", "pred")}
@@ -345,7 +429,7 @@ class _Tr:
         self.in_loop = True
         step = self.block(list(loop.body), "    ", self.end)
         sty = " * ".join("(%s)" % types[n] for n in state)
-        g = "G" + fname
+        g = "G" + fname + self.cfg.get("suffix", "")
         text = "Definition %s_step %s (st : %s) (%s : K) : %s :=\n  let '%s := st in\n%s.\n\n" % (
             g, cfg["gparams"].replace("(sep_func : K -> bool) ", "") if "sep_func" in cfg["carried_free"] else cfg["gparams"],
             sty, loop.target.id, sty, self.end(), step.rstrip("\n"))
@@ -363,11 +447,11 @@ class _Tr:
         epi = self.block(list(epilogue), "  ", result)
         step_args = cfg["gargs"].replace("sep_func ", "") if "sep_func" in cfg["carried_free"] else cfg["gargs"]
         text += "Definition %s (src : list K) %s : %s :=\n%s  let '%s := fold_left (%s_step %s) src %s in\n%s.\n" % (
-            g, cfg["gparams"], cfg["out"] or types[init_names[0]], pre, self.end(), g, step_args, self.end(), epi.rstrip("\n"))
+            g, cfg["gparams"], cfg["out"] or cfg.get("result_ty") or types[init_names[0]], pre, self.end(), g, step_args, self.end(), epi.rstrip("\n"))
         return text
 
 
-FUNCTIONS = ["split_iter", "unique_iter", "bucketize"]
+FUNCTIONS = ["split_iter", "unique_iter", "bucketize", "redundant"]
 
 
 def translate(repo, only=None):
@@ -376,7 +460,15 @@ def translate(repo, only=None):
     out = ("(* generated by harness/translators/c09_loops.py from %s -- do not edit *)\n"
            "From Boltons Require Import Lib.Prelude Spec.C09_Spec Model.C09_Model.\n\n" % path)
     for f in (only or FUNCTIONS):
-        out += "(* ---- %s ---- *)\n" % f + _Tr(f).function(f, _find(tree, f)) + "\n"
+        spec = CFG[f].get("specialize")
+        if spec:
+            name, values = spec
+            for v in values:
+                tr = _Tr(f, {name: v})
+                tr.cfg = dict(tr.cfg, suffix="_%s_%s" % (name, str(v).lower()), result_ty=CFG[f]["result_type"][v])
+                out += "(* ---- %s, %s=%s ---- *)\n" % (f, name, v) + tr.function(f, _find(tree, f)) + "\n"
+        else:
+            out += "(* ---- %s ---- *)\n" % f + _Tr(f).function(f, _find(tree, f)) + "\n"
     return out
 
 
@@ -392,6 +484,8 @@ def selftest(repo):
         ("            seen.add(k)\n            yield i", "            yield i"),
         ("        if key_filter is None or key_filter(key_of_val):", "        if key_filter is None:"),
         ("    if callable(sep):\n        sep_func = sep", "    if not callable(sep):\n        sep_func = sep"),
+        ("                redundant_groups[k] = [seen[k], i]", "                redundant_groups[k] = [i, i]"),
+        ("        ret = [redundant_groups[k][1] for k in redundant_order]", "        ret = [redundant_groups[k][0] for k in redundant_order]"),
     ]
     seen = 0
     for old, new in perturbations:
